@@ -36,10 +36,20 @@ fn run_bitops<R: BufRead + Clone>(mut r: rbsp::BitReader<R>, ops: &str, out: &mu
                 }
             };
         }
-        if op == "ue" {
-            num!(r.read_ue("x"));
-        } else if op == "se" {
-            num!(r.read_se("x"));
+        if op == "ue" || op == "se" {
+            // a codeword with more than 31 leading zeros is an error that leaves the reader behind the codeword's
+            // first 1 bit; the history goes on from there (every other error ends it)
+            let res = if op == "ue" { r.read_ue("x").map(|v| v as i64) } else { r.read_se("x").map(|v| v as i64) };
+            match res {
+                Ok(v) => out.push(format!("v{}", v)),
+                Err(e) => {
+                    let too_large = matches!(e, BitReaderError::ExpGolombTooLarge(_));
+                    out.push(biterr(&e));
+                    if !too_large {
+                        return;
+                    }
+                }
+            }
         } else if op == "b" {
             match r.read_bool("x") {
                 Ok(v) => out.push(if v { "T".into() } else { "F".into() }),
@@ -518,11 +528,43 @@ pub fn synth(i: usize) -> u8 {
 /// accumbig <size:end,size/size:end,...> <policy> : fragments of synthetic bytes (sizes only on the command line); each
 /// handler invocation is reported as L<len>:<crc32>;complete;end;hdr;rd
 fn cmd_accumbig(args: &[&str], out: &mut Vec<String>) {
-    let policy: Vec<u8> = args.get(1).copied().unwrap_or("").bytes().collect();
+    let pol_arg = args.get(1).copied().unwrap_or("");
+    // policy "T..." = tail mode: every invocation is reported by its length and the crc of its last <= 64 bytes only
+    // (walks the chunks without copying), so that one NAL can grow through hundreds of fragments to 100 MB and more
+    let tail_mode = pol_arg.starts_with('T');
+    let policy: Vec<u8> = pol_arg.trim_start_matches('T').bytes().collect();
     let mut calls: Vec<String> = Vec::new();
     let mut k = 0usize;
     {
         let mut acc = NalAccumulator::new(|nal: RefNal<'_>| {
+            if tail_mode {
+                let mut r = nal.reader();
+                let mut len = 0usize;
+                let mut tail: Vec<u8> = Vec::new();
+                let end = loop {
+                    match r.fill_buf() {
+                        Ok(b) if b.is_empty() => break "Eof".to_string(),
+                        Ok(b) => {
+                            let n = b.len();
+                            len += n;
+                            if n >= 64 {
+                                tail = b[n - 64..].to_vec();
+                            } else {
+                                tail.extend_from_slice(b);
+                                if tail.len() > 64 {
+                                    tail.drain(..tail.len() - 64);
+                                }
+                            }
+                            r.consume(n);
+                        }
+                        Err(e) => break iokind(&e),
+                    }
+                };
+                calls.push(format!("T{}:{:08x};{};{}", len, crc32(&tail), nal.is_complete() as u8, end));
+                let d = policy.get(k).copied().unwrap_or(b'B');
+                k += 1;
+                return if d == b'I' { NalInterest::Ignore } else { NalInterest::Buffer };
+            }
             let mut r = nal.reader();
             let mut bytes = Vec::new();
             let end = loop {
@@ -619,6 +661,11 @@ fn cmd_annexbig(args: &[&str], out: &mut Vec<String>) {
                 acts.push(Act::Push(std::mem::take(&mut pending)));
             }
             acts.push(Act::Reset);
+        } else if t == "a" {
+            // abandon: push what is pending and drop the reader without a reset
+            if !pending.is_empty() {
+                acts.push(Act::Push(std::mem::take(&mut pending)));
+            }
         } else if t == "s" {
             pending.extend_from_slice(&[0, 0, 1]);
         } else if t == "o" {
